@@ -39,6 +39,10 @@ Template directives (see DESIGN.md 3.2/3.3):
   their attributes, verbatim from another template or prelude file (`*` = every such item of the file): the vocabulary
   of another unit can be talked about without re-typing it.  No `proof fn` is ever copied (no obligation is duplicated).
 
+  //@uselemma FILE :: lemma1 lemma2 ..   copies the named `proof fn` items (with the comment lines above them) verbatim
+  from another template: a pure lemma of another unit (e.g. a fact about permutations) is PROVED AGAIN in the including
+  unit, as that unit's own obligation `UNIT.lemma.<name>`; the other unit's obligations are untouched.
+
 The body text of every function is copied verbatim; only the generic rules of rules.py touch it.
 Everything the extractor cannot place is a LostAnchor (exit 2 = undecided), never a violation.
 """
@@ -808,11 +812,42 @@ def use_spec(path, names):
     return '\n'.join(found[n] for n in want)
 
 
+LEMMA_ITEM_RX = re.compile(r'(?m)^((?:[ \t]*//[^\n]*\n)*)[ \t]*(?:pub\s+)?proof\s+fn\s+([A-Za-z0-9_]+)\b')
+
+
+def use_lemma(path, names):
+    """`//@uselemma FILE :: l1 l2 ..`: the named `proof fn` items of FILE (a template of THIS harness), with the
+    comment lines directly above them, copied verbatim.  The copies are ordinary template text of the including unit:
+    each one is verified again there and is an obligation `UNIT.lemma.<name>` of THAT unit (nothing is trusted, nothing
+    is re-typed).  Items marked `external_body` (axioms of a prelude) are refused: they are included, never copied."""
+    text = open(path).read()
+    mask = code_mask(text)
+    found = {}
+    for m in LEMMA_ITEM_RX.finditer(text):
+        if not mask[m.start(2)]:
+            continue
+        mo = find_top(text, r'[{;]', m.end(), mask)
+        if not mo or text[mo.start()] != '{':
+            continue
+        before = text[:m.start()].rstrip().split('\n')[-1]
+        if 'external_body' in before or 'external_body' in m.group(1):
+            continue
+        item = text[m.start():match_close(text, mo.start(), mask) + 1]
+        # directive comments (`//@props ..`) of the other unit are not copied: the including unit sets its own
+        item = '\n'.join(ln for ln in item.split('\n') if not ln.lstrip().startswith('//@'))
+        found.setdefault(m.group(2), item)
+    missing = [n for n in names if n not in found]
+    if missing:
+        raise SystemExit('template error: uselemma %s: no proof fn named %s' % (path, ', '.join(missing)))
+    return '\n'.join(found[n] for n in names)
+
+
 def build_unit(template_path, repo, vac=False):
     tpl = open(template_path).read()
     vxdir = os.path.dirname(os.path.abspath(__file__))
     tpl = re.sub(r'(?m)^//@include\s+(\S+)\s*$', lambda m: open(os.path.join(vxdir, m.group(1))).read(), tpl)
     tpl = re.sub(r'(?m)^[ \t]*//@usespec\s+(\S+)\s+::\s+(.*?)\s*$', lambda m: use_spec(os.path.join(vxdir, m.group(1)), m.group(2).split()), tpl)
+    tpl = re.sub(r'(?m)^[ \t]*//@uselemma\s+(\S+)\s+::\s+(.*?)\s*$', lambda m: use_lemma(os.path.join(vxdir, m.group(1)), m.group(2).split()), tpl)
     em = Emitter()
     report = dict(unit=None, props=[], functions=[], items=[], lemmas=[], template=os.path.basename(template_path))
     m = re.search(r'(?m)^//@unit\s+(\S+)\s+props:\s*(.*)$', tpl)
